@@ -187,6 +187,12 @@ func (this *contractExecutor) Execute(transaction *types.Transaction, header *ty
 	if common.IsProposal015() {
 		gasUsed := gasLimit - leftOverGas
 		gasFeeUsed := new(big.Int).Mul(new(big.Int).SetUint64(gasUsed), defaultGasPrice)
+		// the execution itself may have spent the sender's funds (an AUTHCALL is paid by the
+		// transaction origin): the fee account gets what the sender can still pay, as after a
+		// failed transaction (deductGasFee)
+		if balance := accountdb.GetBalance(common.HexToAddress(transaction.Source)); balance.Cmp(gasFeeUsed) < 0 {
+			gasFeeUsed = balance
+		}
 		accountdb.SubBalance(common.HexToAddress(transaction.Source), gasFeeUsed)
 		accountdb.AddBalance(common.FeeAccount, gasFeeUsed)
 		context["gasUsed"] = gasUsed
